@@ -54,6 +54,9 @@ func opCtx(kind string, tx uint64, who int64) Op { return Op{Kind: kind, Tx: tx,
 
 func opWithdraw(owner, prov int64) Op { return Op{Kind: "withdraw", Owner: owner, Prov: prov} }
 
+// 2^255 - 1: the largest sdk.Int
+const k6Huge = "57896044618658097711785492504343953926634992332820282019728792003956564819967"
+
 func rich(atoms ...int64) [][2]int64 {
 	var f [][2]int64
 	for _, a := range atoms {
@@ -160,6 +163,34 @@ func corpus() []*History {
 	add("W8-K1-price-overflow", 0, rich(101),
 		opDefine(1, 101),
 		opBind(1, 126, 101, base(6000), PricingArg{Kind: "N", Text: `{"price":"1` + strings.Repeat("0", 76) + `stake"}`}, 1))
+
+	// W18 (D11): a withdrawal address that is a module account is rejected; the owner's earnings
+	// still reach an ordinary address, escrow and deposit account stay exactly backed.
+	add("W18-D11-blocked-withdraw-address", 0, append(rich(101), [2]int64{111, 1000}),
+		opDefine(1, 101),
+		opBind(1, 126, 101, base(6000), price("10"), 1),
+		opCall(1018, 1, []int64{126}, 111, 1000, 2, false, 0, 0),
+		opEB(5*sec),
+		opRespond(1018, 1, 10, 0, 126, 200, 1, true),
+		Op{Kind: "setwd", Owner: 101, Addr: 9001},
+		opWithdraw(101, 0),
+		opCall(1019, 1, []int64{126}, 111, 1000, 2, false, 0, 0),
+		opEB(5*sec),
+		opRespond(1019, 1, 11, 0, 126, 200, 1, true),
+		Op{Kind: "setwd", Owner: 101, Addr: 9002},
+		opWithdraw(101, 0),
+		Op{Kind: "setwd", Owner: 101, Addr: 9003},
+		Op{Kind: "setwd", Owner: 101, Addr: 9004},
+		opEB(5*sec), opEB(5*sec))
+
+	// W19 (K6): a top-up whose sum with the stored deposit needs more than 255 bits panics in
+	// Coins.Add before the owner is asked to pay (update and enable).
+	add("W19-deposit-overflow-k6", 0, rich(101),
+		opDefine(1, 101),
+		opBind(1, 126, 101, base(6000), price("10"), 1),
+		Op{Kind: "update", Svc: 1, Prov: 126, Owner: 101, Dep: CoinsArg{Kind: "B", Big: k6Huge}, Pr: PricingArg{Kind: "-"}},
+		Op{Kind: "disable", Svc: 1, Prov: 126, Owner: 101},
+		Op{Kind: "enable", Svc: 1, Prov: 126, Owner: 101, Dep: CoinsArg{Kind: "B", Big: k6Huge}})
 
 	// W9 (K2): frequency 2^64-1 wraps the next-batch height into the past.
 	add("W9-K2-frequency-wrap", 0, append(rich(101), [2]int64{111, 1000}),
